@@ -68,6 +68,20 @@ Theorem C13_idle_prefix : forall k prefix reads,
 Proof. exact idle_prefix_fragmentation. Qed.
 Print Assumptions C13_idle_prefix.
 
+(* Re-pointed parser.  A parser that is between messages is pointed at a new
+   receive buffer through makeParser(msg=buffer) (mk = true) or
+   reinit(msg=buffer) (mk = false).  Whether the bytes of the next message(s)
+   are already in that buffer at the call (c), arrive afterwards in any
+   non-empty reads (r :: rs), or partly both: same final parser state, same
+   completed messages.  In particular an EMPTY buffer is adopted like any other. *)
+Theorem C13_rebind_fragmentation : forall k mk h0 s0 b0 c r rs,
+  hs_p h0 = Live s0 b0 -> hs_started h0 = false -> c ++ r <> [] ->
+  let hA := fold_left (do_op k) (ORebind mk c :: feed_ops (r :: rs)) h0 in
+  let hB := fold_left (do_op k) [ORebind mk (c ++ concat (r :: rs)); OParse] h0 in
+  hs_p hA = hs_p hB /\ hs_out hA = hs_out hB.
+Proof. exact rebind_fragmentation. Qed.
+Print Assumptions C13_rebind_fragmentation.
+
 (* Non-vacuity: a pipelined request sequence (chunked with extension and
    trailer, then bare-LF HTTP/1.0 keep-alive, then content-length) read whole
    and byte by byte gives three messages with the expected bodies. *)
